@@ -1022,6 +1022,20 @@ def unsorted_forms(rng, occ):
     return out
 
 
+def container_forms(rng, occ, n, k=2):
+    """numpy-array and other container presentations of a set of occupied indices, all accepted for `initial_state` by
+    the unmodified tree (probed when the check was built; `occupied_orbitals` of prepare_gaussian_state accepts lists of
+    Python ints only and is not varied here): the int64 array always, plus `k` random others"""
+    occ = list(occ)
+    mask = np.isin(np.arange(n), occ)
+    forms = [('ndarray int32', np.array(occ, dtype=np.int32)), ('ndarray uint8', np.array(occ, dtype=np.uint8)),
+             ('numpy.flatnonzero', np.flatnonzero(mask)), ('numpy.where', np.where(mask)[0]),
+             ('list of numpy ints', [np.int64(i) for i in occ]), ('tuple', tuple(occ)), ('set', set(occ)),
+             ('ndarray intp reversed', np.array(occ[::-1], dtype=np.intp)),
+             ('empty float array' if not occ else 'ndarray int16', np.array(occ, dtype=float if not occ else np.int16))]
+    return [('ndarray int64', np.array(occ, dtype=np.int64))] + rng.sample(forms, k)
+
+
 def primitives_stream(ctx, lad):
     import cirq
     of = ctx.of
@@ -1070,14 +1084,17 @@ def primitives_stream(ctx, lad):
                           extra=sing(W, n))
                 # initial states: the reference is the transformation itself, built from the Spec matrices:
                 # U|init> = prod_{p occupied} b^_p U|vac>, and U|vac> is the state annihilated by all b_p
-                states = range(2 ** n) if n <= 3 or ctx.tier == 'thorough' else rng.sample(range(2 ** n), 6)
+                states = range(2 ** n) if n <= 3 or ctx.tier == 'thorough' else \
+                    sorted(set(rng.sample(range(2 ** n), 6)) | {0, 1 << (n - 1), 1})
                 B = [bogoliubov_rhs(lad, W, n, p) for p in range(n)]
                 ev, evec = np.linalg.eigh(sum(b @ b.conj().T for b in B))
                 newvac = evec[:, 0]
                 for init in states:
                     occ = [j for j in range(n) if (init >> (n - 1 - j)) & 1]
-                    for ini in [init, occ] + unsorted_forms(rng, occ):
-                        if not isinstance(ini, int) and list(ini) != sorted(ini):
+                    for ini in [init, occ] + unsorted_forms(rng, occ) + [f_ for _, f_ in container_forms(rng, occ, n)]:
+                        if isinstance(ini, np.ndarray):
+                            st.count('initial_state:ndarray')
+                        elif not isinstance(ini, (int, set)) and list(ini) != sorted(ini):
                             st.count('initial_state:unsorted')
                         try:
                             U2 = circuit_unitary(cirq, of.bogoliubov_transform(qubits, W.copy(), initial_state=ini),
@@ -1112,7 +1129,8 @@ def primitives_stream(ctx, lad):
                     ref = sum(Q[j, k] * lad.get(n, k, 1) for k in range(n)) @ ref
                 for init in (range(2 ** n) if n <= 3 else rng.sample(range(2 ** n), 4)):
                     occ = [j for j in range(n) if (init >> (n - 1 - j)) & 1]
-                    for ini in [rng.choice([init, occ, set(occ)])] + unsorted_forms(rng, occ)[:2]:
+                    for ini in [rng.choice([init, occ, set(occ)])] + unsorted_forms(rng, occ)[:2] + \
+                            [f_ for _, f_ in container_forms(rng, occ, n, 1)]:
                         case = {'fn': 'prepare_slater_determinant', 'n': n, 'eta': eta, 'initial_state': ini, 'Q': Q}
                         st.case(case)
                         ok, U = safe(st, 'prepare_slater_determinant', case, lambda: circuit_unitary(
@@ -1158,11 +1176,15 @@ def primitives_stream(ctx, lad):
                             variants.append((list(f), init))   # lists only (tuples are rejected by the clean tree)
                         for f in unsorted_forms(rng, iocc)[:1]:
                             variants.append((list(occ_orb), f))
+                        for _, f in container_forms(rng, iocc, n, 1):
+                            variants.append((list(occ_orb), f))
                         for oo, ini in variants:
                             case = {'fn': 'prepare_gaussian_state', 'n': n, 'conserving': cons,
                                     'occupied_orbitals': oo, 'initial_state': ini, 'H': repr(H)[:300]}
                             st.case(case)
-                            if list(oo) != sorted(oo) or (not isinstance(ini, int) and list(ini) != sorted(ini)):
+                            if isinstance(ini, np.ndarray):
+                                st.count('gaussian:ndarray-initial-state')
+                            elif list(oo) != sorted(oo) or (not isinstance(ini, (int, set)) and list(ini) != sorted(ini)):
                                 st.count('gaussian:unsorted-sequence')
                             ok, U = safe(st, 'prepare_gaussian_state', case, lambda: circuit_unitary(
                                 cirq, of.prepare_gaussian_state(qubits, H, occupied_orbitals=oo,
